@@ -11,9 +11,11 @@ from .smt import RV, is_numeral
 
 
 def env_from_inputs(m: refsem.Model, inputs: dict):
+    """Environment for the reference evaluator: states, parameters, time only.  (Solver-model values of
+    missing-variable inputs m_* or cut variables i_* must never override the model's own definitions.)"""
     env = {}
     for k, v in inputs.items():
-        if k.startswith("s_") or k.startswith("p_") or k.startswith("m_"):
+        if k.startswith("s_") or k.startswith("p_"):
             env[k[2:]] = v
         elif k in ("t", "dt"):
             env[k] = v
